@@ -14,7 +14,8 @@ RULE = ("C01 pair classes in every accepted spelling (opaque kinds rotated, tran
         "(show, save_report) in all 4 combinations, inside an I/O window (sys.stdout/sys.stderr replacement, fd 1/2 redirection, audit hook for "
         "write-opens and filesystem mutations, cwd listing). Default path: ColorPair construction, is_valid/is_readable/errors, make_readable and "
         "make_readable_bulk produce no output, no event, no listing change. With flags: result == plain result, no exception, write-opens only for "
-        "cm_colors_quick_report.html / cm_colors_bulk_report.html inside the cwd. Non-trivial = pair that needed fixing; distinct = (pair, spelling, config).")
+        "cm_colors_quick_report.html / cm_colors_bulk_report.html inside the cwd; fresh-interpreter windows: default path without cached bytecode, and "
+        "save_report under a non-UTF-8 default text encoding (LC_ALL=C, UTF-8 mode off). Non-trivial = pair that needed fixing; distinct = (pair, spelling, config).")
 ASSUMPTIONS = ["audit events cover Python-level file creation (open, os.*, shutil.*, tempfile.*, subprocess); bytecode caching is disabled in the harness",
                "stdout produced by show=True / 'Report generated' by save_report=True is asked-for output"]
 MUST_OBSERVE = {"any": ["default_windows", "flag_calls:show", "flag_calls:save", "flag_calls:show+save", "bulk_default_windows", "bulk_report_calls", "outcome:fixed", "outcome:failed", "outcome:unchanged", "lenient_or_invalid_windows"]}
